@@ -26,6 +26,9 @@ CHECKS = {
    text='Lean: for any interleaving of per-thread/per-task event lists the delivered LINE events are the same multiset (opened_interleave), hence quiescent reports equal the sum of what each task executed (interleave_exact), interleaving_independent; a suspension empties the slot. K13 enumerates every interleaving of 2-3 step-wise driven generators/coroutines/async generators of the same registered code (window and per-step decorator windows) on the real profiler, compares with the model and with the sum of solo runs; free-running OS threads (2-8, silent ones included, tiny switch intervals) are compared with the sum of deterministic per-thread counts, counts back to zero, no crash.',
    note=TB + 'OS thread schedules can only be sampled; a data race inside the C++ maps is outside the model (the callback never releases the GIL: recorded assumption).', ref='§6 C13'),
 
+ 'C14': dict(cat='proof', tech='Lean 4 proof over all environments/histories on methods transliterated from the tree (bridge emitted = model) + correspondence on real GlobalProfiler objects and real interpreter exits',
+   text='Lean: requested_iff (fresh profile(f) is f, creates no profiler and registers nothing with atexit iff LINE_PROFILE lower-cases into the five falsy strings (unset = empty) and neither --line-profile nor --line_profile is in argv; the property\'s literal lists are in the statement, the code\'s tables are regenerated), requested_active, enable_then_active / disable_then_inert from every state, single_profiler + decorate_result (every history of enable/disable/decorate creates at most one LineProfiler, registers show with atexit exactly as often, every decoration returns f or wraps with that one profiler, never fails), kernprof_handover, show_writes_exactly + show_keys_once (outputs = switched-on subset, each once, named from the prefix). The five GlobalProfiler methods and the tables are re-emitted from explicit_profiler.py on every run; Bridge/Explicit.lean proves emitted = model. K14: 44 LINE_PROFILE spellings x 11 argv shapes, all histories up to length 3-4 and random ones with kernprof\'s hook on real GlobalProfiler objects vs the model; show() under all 16 write_config subsets; real interpreter exits (inert spellings, flags, in-code enable with prefix, exit by exception / sys.exit, config subsets).',
+   note=TB + 'str.lower vs ASCII lower-casing is probed over all code points each run; atexit semantics and file I/O are exercised by subprocess cases, not modelled. The translator matches the library expressions of the methods by exact source text.', ref='§6 C14'),
  'C15': dict(cat='proof', tech='Lean 4 proof over all argument lists and option tables + translator bridge (emitted pre_parse = model) + correspondence on the real entry point',
    text='Lean: module_mode, script_plain, script_shielded, options_only_from_prefix hold for every option table, every decodable option prefix and every list of program arguments (decode_extend: option decoding stops at the first positional and never looks further). The translator re-emits pre_parse_single_arg_directive from kernprof.py on every run and the bridge theorem gen_eq_model proves the emitted code equal to the model for all argument lists; the option table is regenerated from the add_argument calls. K15 runs the real kernprof.main in-process on thousands of token lists (module / shielded script / plain script shapes after 20 option prefixes) and compares argv, output file name and type, and viewing with the model and with the property directly.',
    note=TB + 'argparse is modelled only on kernprof\'s option grammar (exact names, --long=value, separate values); abbreviations and clustered short flags are outside the model. -i prefixes are exercised elsewhere (timer threads).', ref='§6 C15'),
